@@ -157,6 +157,54 @@ def run(ctx):
         if pub is not None and [k.kid for k in pub.keys] != [k.kid for k in ks.keys]:
             ctx.report("public key-set export changes kids", {"names": names}, "keyset:public-kids")
     foreign_jwks(ctx, n_sets)
+    jwe_consume(ctx, max(4, n_sets // 3))
+
+
+JWE_POOL = [("A128KW", "oct16"), ("A256KW", "oct32"), ("dir", "oct32"), ("RSA-OAEP", "rsa2048"), ("RSA-OAEP-256", "rsa2048b"), ("ECDH-ES", "p256"),
+            ("ECDH-ES+A128KW", "x25519"), ("ECDH-ES+A256KW", "p384"), ("PBES2-HS256+A128KW", "oct48"), ("A192GCMKW", "oct24")]
+
+
+def jwe_consume(ctx, n_sets):
+    """The consumption rule on the JWE side, all three serializations, key set given directly or through a callable:
+    a token naming the right kid decrypts; one without kid only against a one-key set; an unknown kid, the kid of
+    another key or a non-string kid never does - and absent/unknown are the invalid-key-id error."""
+    from joserfc.jwk import KeySet
+    from harness import jwecases as E
+    rng = ctx.rng
+    batch = []
+    for _ in range(n_sets):
+        n = rng.randrange(1, 5)
+        chosen = rng.sample(JWE_POOL, n)
+        keys = [K.key(kn, private=True, kid=f"kid-{i}-{kn}") for i, (_, kn) in enumerate(chosen)]
+        ks = KeySet(keys)
+        for i, (alg, kn) in enumerate(chosen):
+            enc = "A256GCM" if alg == "dir" else rng.choice(["A128GCM", "A128CBC-HS256", "A256GCM"])
+            for kid_mode in ("right", "absent", "unknown", "other-key", "nonstring"):
+                if kid_mode == "other-key" and n < 2:
+                    continue
+                hk = {"right": {"kid": keys[i].kid}, "absent": {}, "unknown": {"kid": "no-such-kid"},
+                      "other-key": {"kid": keys[(i + 1) % n].kid}, "nonstring": {"kid": 7}}[kid_mode]
+                for ser in ("compact", "flat", "general"):
+                    try:
+                        c = E.build(rng, alg, enc, ser, b"for the right key", kn=kn, header_extra=hk or None)
+                    except Exception:  # noqa: BLE001 - reference cannot build (e.g. kid type): skip
+                        continue
+                    for via in ("direct", "callable"):
+                        c2 = E.DCase(c.value, ks if via == "direct" else ("callable", ks), None, E.JReg(), f"kid-{kid_mode}-{via}", c.meta)
+
+                        def expect(case, impl, kid_mode=kid_mode, n=n):
+                            if kid_mode == "right" or (kid_mode == "absent" and n == 1):
+                                if impl[0] != "ok":
+                                    return f"JWE naming the right key (kid {kid_mode}) was not decrypted: {impl[1]}"
+                                return None
+                            if impl[0] == "ok":
+                                return f"JWE decrypted although its kid ({kid_mode}) does not name the recipient key in a set of {n}"
+                            if kid_mode in ("unknown", "absent") and impl[1] != "InvalidKeyIdError":
+                                return f"kid {kid_mode}: expected InvalidKeyIdError, got {impl[1]}"
+                            return None
+                        c2.expect = expect
+                        batch.append(c2)
+    E.run_decrypt_cases(ctx, "keyset-consume-jwe", batch, check_c02=False, prop="C14")
 
 
 def foreign_jwks(ctx, n_sets):
